@@ -70,8 +70,9 @@ func (p *Pollard) GetTreeRows() uint8 {
 // GetLeafPosition returns the position of the leaf for the given hash. Returns false if
 // the hash is not the hash of a leaf or if the hash wasn't found in the accumulator.
 func (p *Pollard) GetLeafPosition(hash Hash) (uint64, bool) {
+	// NodeMap is keyed by a prefix of the hash: make sure it's really the hash.
 	polNode, found := p.NodeMap[hash.mini()]
-	if !found {
+	if !found || polNode.data != hash {
 		return 0, false
 	}
 
